@@ -11,6 +11,8 @@ injected fault fired the call must raise one of pycel's own errors; if none
 fired the call must return the value of a fresh model (never a stale value,
 never a spurious failure)."""
 
+import itertools
+
 import networkx as nx
 from hypothesis import strategies as st
 
@@ -476,6 +478,84 @@ def check_unloadable(rec):
                      repr(exc)[:300])
 
 
+def check_trim_with_failure(rec):
+    """the failing cell is one trim_graph has to calculate and freeze (a
+    precedent of an output that does not depend on an input)"""
+    for kind, mid, iterative, pre in itertools.product(
+            ('unknown', 'always', 'call1', 'call12'), (False, True),
+            (False, True), (False, True)):
+        plugin.reset()
+        if kind in RULES:
+            plugin.FAIL_ON[1] = RULES[kind]
+        site = '=NOSUCHFUNCTION(B1*2)' if kind == 'unknown' else \
+            '=VFAIL(1,B1*2)'
+        cells = {'A1': 1, 'B1': 3, 'C1': site,
+                 'C2': '=C1+1' if mid else '=B1+1',
+                 'D1': '=A1+C1+C2', 'E1': '=A1*2'}
+        good = dict(cells, C1='=B1*2')
+        case = dict(kind_='trim-failure', kind=kind, mid=mid,
+                    iterative=iterative, pre=pre)
+        rec.case(key=('trim-failure', kind, mid, iterative, pre),
+                 nontrivial=True, labels=('trim-with-failure', f'kind:{kind}'),
+                 sample=case)
+        tag = f'{kind}:{"iterative" if iterative else "plain"}'
+        try:
+            model = compile_spec({'sheets': {'S': cells}},
+                                 cycles=True if iterative else None,
+                                 plugins='vlib.plugin')
+            if pre:
+                models.safe_eval(model, 'S!E1')
+            trimmed = False
+            for attempt in range(4):
+                before = plugin.RAISED[0]
+                try:
+                    model.trim_graph(['S!A1'], ['S!D1', 'S!E1'])
+                    trimmed = True
+                    break
+                except Exception as exc:
+                    if not pycel_error(exc):
+                        rec.fail(f'trim:bare-exception:{type(exc).__name__}:'
+                                 f'{tag}', case, repr(exc)[:300])
+                        break
+                    if kind != 'unknown' and plugin.RAISED[0] == before:
+                        rec.fail(f'trim:spurious-failure:{tag}', case,
+                                 repr(exc)[:300])
+                        break
+            else:
+                continue        # keeps failing, as it must for a lasting fault
+            if not trimmed:
+                continue
+            persistent = kind in ('unknown', 'always')
+            for value in (1, 7):
+                model.set_value('S!A1', value)
+                fresh = compile_spec(
+                    {'sheets': {'S': dict(good, A1=value)}})
+                for addr in ('S!D1', 'S!E1'):
+                    try:
+                        got = model.evaluate(addr)
+                    except Exception as exc:
+                        if not pycel_error(exc):
+                            rec.fail(f'trim:bare-exception:'
+                                     f'{type(exc).__name__}:{tag}', case,
+                                     repr(exc)[:300])
+                        elif addr == 'S!E1' or not persistent:
+                            rec.fail(f'trim:spurious-failure:{tag}', case,
+                                     f'{addr}: {exc!r}'[:300])
+                        continue
+                    if addr == 'S!D1' and persistent:
+                        rec.fail(f'trim:fault-swallowed:{tag}', case,
+                                 f'trim_graph went through although C1 '
+                                 f'({site}) can not be calculated, and D1 = '
+                                 f'{got!r}')
+                    elif not models.same_value(got, fresh.evaluate(addr)):
+                        rec.fail(f'trim:wrong-value-after-fault:{tag}', case,
+                                 f'{addr} = {got!r}, a fresh model without '
+                                 f'the fault gives {fresh.evaluate(addr)!r}')
+        except Exception as exc:
+            rec.fail(f'trim:harness-visible-raise:{type(exc).__name__}', case,
+                     repr(exc)[:300])
+
+
 @st.composite
 def column_specs(draw):
     """workbooks whose formula cells lie INSIDE whole-column / whole-row
@@ -538,6 +618,7 @@ def run_shard(shard, rec):
         for kind in ('call1', 'call2', 'call12'):
             check_cycle(rec, kind, 0)
         check_unloadable(rec)
+        check_trim_with_failure(rec)
         return
     # fault sites are enumerated per spec: every formula cell x every kind
     strategy = st.tuples(
@@ -563,6 +644,9 @@ def run_shard(shard, rec):
 
 
 def replay(case, rec):
+    if isinstance(case, dict) and case.get('kind_') == 'trim-failure':
+        check_trim_with_failure(rec)
+        return
     if isinstance(case, dict) and case.get('kind_') == 'unloadable':
         check_unloadable(rec)
         return
